@@ -46,6 +46,18 @@ Theorem C03_depth_bounds :
 Proof. exact find_roots_depth. Qed.
 Print Assumptions C03_depth_bounds.
 
+(* ... and for ANY Depth (in particular d = 1) every followed direct predecessor of the given node
+   lies under a root: the two-sided bound is not exact further up (C03_depth_not_exact), but the
+   direct predecessors / referrers are never lost *)
+Theorem C03_direct_predecessors_covered :
+  forall (s : source) (fs : list filter) (rank : nat -> nat) (limit : Z) (node : desc)
+         (fuel : nat) (roots : list desc),
+    acyclic_source s rank ->
+    find_roots fuel s fs limit node = Some roots ->
+    forall p, In p (find_preds s fs (d_id node)) -> exists r, In r roots /\ anc s fs (d_id p) (d_id r).
+Proof. exact find_roots_direct_preds. Qed.
+Print Assumptions C03_direct_predecessors_covered.
+
 (* The loop terminates within the fuel the runner uses, on every finite source,
    for every depth, filter stack and served order (no acyclicity needed: the
    visited set bounds it). *)
@@ -141,6 +153,25 @@ Theorem C03_errors_surface :
     find_roots_e fuel s fs limit node k = ROk roots -> find_roots fuel s fs limit node = Some roots.
 Proof. exact find_roots_e_success. Qed.
 Print Assumptions C03_errors_surface.
+
+(* the same below a caller-supplied FindPredecessors (its own call into the source is the first
+   operation, every filter fetch follows) *)
+Theorem C03_errors_surface_custom :
+  forall (fuel : nat) (s : source) (custom : nat -> list desc) (fs : list filter) (limit : Z)
+         (node : desc) (k : nat) (roots : list desc),
+    find_roots_custom_e fuel s custom fs limit node k = ROk roots ->
+    find_roots_fp fuel (find_preds_custom s custom fs) limit node = Some roots.
+Proof. exact find_roots_custom_e_success. Qed.
+Print Assumptions C03_errors_surface_custom.
+
+(* totality: with the runner's fuel the error-aware findRoots ends with a root set or an error,
+   for every armed fault, on every finite source *)
+Theorem C03_errors_total :
+  forall (s : source) (fs : list filter) (limit : Z) (node : desc) (n k : nat),
+    (forall x p, x < n -> In p (s_preds s x) -> d_id p < n) -> d_id node < n ->
+    find_roots_e (fuel_for s n) s fs limit node k <> RFuel.
+Proof. exact find_roots_e_total. Qed.
+Print Assumptions C03_errors_total.
 
 Theorem C03_no_fault_agrees :
   forall (fuel : nat) (s : source) (fs : list filter) (limit : Z) (node : desc),
